@@ -24,6 +24,17 @@ Record fsig := mkFS { fs_schema : string; fs_name : string; fs_args : list farg;
 Record env := mkEnv { env_engine : engine_t; env_cat : catalog; env_funcs : list fsig; env_reserved : string -> bool }.
 
 (** * Small helpers *)
+(** an error that carries a source location (sqlerr.Error.Location): "@<loc>:msg" *)
+Definition z_to_string (z : Z) : string :=
+  (fix go (fuel : nat) (n : N) (acc : string) : string :=
+     match fuel with
+     | O => acc
+     | S k => let d := N.modulo n 10 in
+              let acc' := String (ascii_of_N (48 + d)) acc in
+              if N.eqb (N.div n 10) 0 then acc' else go k (N.div n 10) acc'
+     end) 20%nat (Z.to_N z) "".
+
+
 Definition some_or {A} (d : A) (o : option A) : A := match o with Some x => x | None => d end.
 
 Fixpoint nth_node (l : list node) (i : nat) : option node :=
@@ -254,15 +265,6 @@ Definition flatten (n : node) : string * bool :=
   (String.concat "" (flat_map (fun x => if is_kind "String" x then [str_of "Str" x] else []) pre),
    existsb (is_kind "A_Const") pre).
 
-Definition z_to_string (z : Z) : string :=
-  (fix go (fuel : nat) (n : N) (acc : string) : string :=
-     match fuel with
-     | O => acc
-     | S k => let d := N.modulo n 10 in
-              let acc' := String (ascii_of_N (48 + d)) acc in
-              if N.eqb (N.div n 10) 0 then acc' else go k (N.div n 10) acc'
-     end) 20%nat (Z.to_N z) "".
-
 Definition param_ref_node (num loc : Z) : node :=
   Node "ParamRef" [] (filter (fun p => negb (Z.eqb (snd p) 0)) [("Location", loc); ("Number", num)]) [].
 
@@ -434,6 +436,8 @@ Definition math_ops := ["+"; "-"; "*"; "/"; "%"; "^"; "|/"; "||/"; "!"; "!!"; "@
 
 Definition res_name (res : node) : option string := str_opt "Name" res.
 
+Definition err_at {A} (loc : Z) (msg : string) : result A :=
+  if (loc =? 0)%Z then Err msg else Err ("@" +++ z_to_string loc +++ ":" +++ msg).
 Definition e_col_missing (n : string) := "column """ +++ n +++ """ does not exist".
 Definition e_col_ambiguous (n : string) := "column reference """ +++ n +++ """ is ambiguous".
 
@@ -451,9 +455,9 @@ Definition output_column_refs (res : node) (tables : list qtable) (ref : node) :
                  then [mkQC (some_or (qc_name c) (res_name res)) (qc_dt c) (qc_nn c) (qc_arr c) "" (qc_table c)]
                  else []) (qt_cols t)) tables in
       match cols with
-      | [] => Err (e_col_missing name)
+      | [] => err_at (loc_of res) (e_col_missing name)
       | [_] => Ok cols
-      | _ => Err (e_col_ambiguous name)
+      | _ => err_at (loc_of res) (e_col_ambiguous name)
       end
   | _ => Err "unknown number of fields"
   end.
@@ -703,10 +707,10 @@ Definition resolve_one (e : env) (tables : list tname) (aliases : list (string *
                               | Some col => [(t, col)] | None => [] end) search_in in
                 (* `key = ref.name` after the first hit only matters for named refs; pr_name is never set *)
                 match hits with
-                | [] => Err (e_col_missing key)
+                | [] => err_at (loc_of lref) (e_col_missing key)
                 | [(t, col)] =>
                     Ok [mkP num (Some (mkQC (pname key) (data_type (col_type col)) (col_notnull col) (col_array col) "" (Some t)))]
-                | _ => Err (e_col_ambiguous key)
+                | _ => err_at (loc_of lref) (e_col_ambiguous key)
                 end
             | _ => Panic "too many field items"
             end
@@ -774,7 +778,7 @@ Definition resolve_one (e : env) (tables : list tname) (aliases : list (string *
             | Some col =>
                 Ok [mkP num (Some (mkQC (pname key) (data_type (col_type col)) (col_notnull col) (col_array col) ""
                                         (Some (mkTN "" (fst sr) (snd sr)))))]
-            | None => Err (e_col_missing key)
+            | None => err_at (loc_of n) (e_col_missing key)
             end
         end
       else if String.eqb k "TypeCast" then
